@@ -99,6 +99,18 @@ CLAIMED.update({
   ref="DESIGN.md 4/C07"),
 })
 
+CLAIMED.update({
+ "C01": dict(
+  text="Deductive proof, for the functions under contract, that values every node writes into the state while applying a block are functions of "
+       "(state, block) only: NormalizedEpochDuration/GetNextValidationTime are exact against a specification that reads weekday, hour and minute of the "
+       "validation INSTANT in UTC, under a model of package time in which the offset of time.Local is an unconstrained host property (found, replayed "
+       "and fixed: the weekday was read in the host's zone); MinimalShard is exact against 'lowest shard id among the least populated' under a map "
+       "model with arbitrary iteration order. Only these functions: the property as a whole (all transitions, caches, histories) is not decided.",
+  note="Trusted: model of package time (engine stdlib/time.spec), NetworkParams (float pow) opaque, StateDB object cache (A-cache). Not under contract: "
+       "reward distribution order, ordered commit (sort.Slice), ceremony caches, validators cache rebuild, wasm.",
+  ref="DESIGN.md 4/C01"),
+})
+
 PENDING = {
 }
 
